@@ -263,17 +263,20 @@ def check(ctx, rep, rule, entry=True):
     dt = ctx.role('dt')
     tree2 = eng2.call_entry(dt, eng2.sym_args(dt))
     n_e = 0
+    from .common import ite_leaves
     for st in E.leaves_of(tree2):
         res = st.ret
-        if not (isinstance(res, tuple) and res and res[0] == 'map'):
-            rep.ob(rule, 'imsaak:entry-is-builder-value', None, f'result of the day\'s computation is {show(res, maxd=2)[:80]}')
+        ent = [v for k, v in res[2] if k[0] == 'enum' and k[2] == 'Imsaak'] if (isinstance(res, tuple) and res and res[0] == 'map') else []
+        if not ent:
+            # the result is assembled in a way that leaves no readable entry (a collected sequence, a helper): nothing to compare
+            rep.ob(rule, 'imsaak:entry-is-builder-value', None, f'no readable Imsaak entry in {show(res, maxd=2)[:80]}')
             continue
-        for k, v in res[2]:
-            if k[0] == 'enum' and k[2] == 'Imsaak':
-                n_e += 1
-                pv = eng2.purify(st, v)
-                okv = isinstance(pv, tuple) and pv and pv[0] == 'app' and pv[1] == ib
-                rep.ob(rule, 'imsaak:entry-is-builder-value', okv,
-                       'the Imsaak entry is the builder\'s value, unmodified' if okv else
-                       f'the Imsaak entry is {show(pv, maxd=4)[:160]}: the builder\'s value is changed after it was computed')
-    rep.floor('Imsaak entries of the day\'s result', n_e, 1)
+        n_e += 1
+        pv = eng2.purify(st, ent[-1])
+        # a join of two paths leaves `if c { builder(..a) } else { builder(..b) }`: every case must be the builder's value
+        bad = [v for c, v in ite_leaves(pv) if not (isinstance(v, tuple) and v and v[0] == 'app' and v[1] == ib)]
+        okv = not bad
+        rep.ob(rule, 'imsaak:entry-is-builder-value', okv,
+               'the Imsaak entry is the builder\'s value, unmodified' if okv else
+               f'the Imsaak entry is {show(bad[0], maxd=4)[:160]}: the builder\'s value is changed after it was computed')
+    rep.extra['imsaak_entries_compared'] = n_e
